@@ -510,7 +510,20 @@ C11_A(cfg, opts, ph, s0, s1, b) ==
                   /\ b.ts[t1] \in {"READY", "WORKING"}
                   /\ ~cfg.tasks[t1].auto /\ ~cfg.tasks[t1].needF
                   /\ EligibleW(cfg, w, t1)
-                  /\ C06_CanAccept(cfg, s1, t1, w) )>> >>
+                  /\ C06_CanAccept(cfg, s1, t1, w) )>>,
+        \* ... nor for a higher-priority facility task (of a flat single-task component) for
+        \* which a facility the worker can operate is still free after the whole phase
+        <<"C11.A.no-inversion-pair", \A t2 \in Tasks(cfg): \A w \in ToSet(C04_NewW(b, s1, t2)):
+            \A t1 \in Tasks(cfg):
+               C06_PairTask(cfg, t1) /\ key[t1] < key[t2] /\ b.ts[t1] \in {"READY", "WORKING"} =>
+                 LET p == s1.cp[cfg.tasks[t1].comp]
+                 IN p # 0 =>
+                    \A f \in Facs(cfg):
+                       ~( /\ cfg.facs[f].wp = p /\ s1.fs[f] = "FREE" /\ s1.ft[f] = <<>>
+                          /\ EligibleF(cfg, f, t1) /\ EligibleW(cfg, w, t1) /\ CanOperate(cfg, w, f)
+                          /\ C06_CanAccept(cfg, s1, t1, w)
+                          /\ \A i \in DOMAIN s1.af[t1]: ~cfg.facs[s1.af[t1][i]].solo
+                          /\ (cfg.facs[f].solo => Len(s1.af[t1]) = 0) )>> >>
 
 \* =========================== histories (C08 C09 C10 C15 C16 C17 C18) =========
 \* run = record of one API operation: op, args, opts, ret, obs, final = [st, lg]; pre = the
